@@ -232,6 +232,14 @@ class FnTr:
                 elif op == ">=":
                     s = "%s.leb %s %s" % (mod, tb, ta)
                 else:
+                    if op in ("==", "!="):
+                        # equality is symmetric: canonical operand order (a literal goes right, otherwise by text), so
+                        # `0 == count` / `end == start` generate what `count == 0` / `start == end` generate
+                        def _islit(t):
+                            return re.fullmatch(r"\(?\d+(%N)?\)?|true|false", t) is not None
+                        la, lb = _islit(ta), _islit(tb)
+                        if (la and not lb) or (la == lb and tb.lower() < ta.lower()):
+                            ta, tb = tb, ta
                     s = f[op] % (mod, ta, tb)
                 return ("(%s)" % s, "bool", ga + gb)
             if op in ("+", "-", "*", "/"):
